@@ -550,3 +550,58 @@ package solver
 //@     modifies nothing
 //@     invariant idx:   0 <= rangei && rangei <= len(s.minLits)
 //@     invariant cost:  cost == psum(s.minLits, s.minWeights, asgof(s.model), rangei) && cost >= 0
+
+// ---------------------------------------------------------------- counting and enumeration (C05)
+
+// countCurrentModels: 2^k where k is the number of variables the saved model leaves unbound.
+//@ func (*Solver).countCurrentModels
+//@   requires nn: s != nil
+//@   ensures  pow: result == pow2(czero(s.lastModel, len(s.lastModel)))
+//@   loop 1
+//@     modifies nothing
+//@     invariant idx: 0 <= rangei && rangei <= len(s.lastModel)
+//@     invariant pow: nb == pow2(czero(s.lastModel, rangei))
+
+// addCurrentModels: sends every total extension of the saved model exactly as "bound variables
+// as in the model, the j-th unbound variable = bit j of the counter", one fresh slice per model,
+// 2^k of them.
+//@ func (*Solver).addCurrentModels
+//@   requires nn: s != nil && ch != nil && !closed(ch) && s.nbVars >= 0 && len(s.lastModel) <= s.nbVars
+//@   ensures  count: result == pow2(czero(s.lastModel, len(s.lastModel)))
+//@   ensures  nsent: nsent(ch) == old(nsent(ch)) + result && !closed(ch)
+//@   sends ch shape: len(msg) == s.nbVars && arr(msg) > head(curalloc())
+//@   sends ch bound: forall(v, 0, len(s.lastModel), s.lastModel[v] != 0 ==> msg[v] == (s.lastModel[v] > 0))
+//@   sends ch free:  forall(j, 0, len(unbound), msg[unbound[j]] == bit(i, j))
+//@   loop 1
+//@     invariant idx:   0 <= rangei && rangei <= len(s.lastModel) && len(model) == s.nbVars && fresh(model) && fresh(unbound) && cap(unbound) == s.nbVars && len(unbound) <= rangei
+//@     invariant nb:    nb == pow2(len(unbound)) && len(unbound) == czero(s.lastModel, rangei)
+//@     invariant ub:    forall(j, 0, len(unbound), 0 <= unbound[j] && unbound[j] < rangei && s.lastModel[unbound[j]] == 0)
+//@     invariant inc:   forall(p, 0, len(unbound), forall(q, p+1, len(unbound), unbound[p] < unbound[q]))
+//@     invariant bound: forall(v, 0, rangei, s.lastModel[v] != 0 ==> model[v] == (s.lastModel[v] > 0))
+//@   loop 2
+//@     invariant idx:   0 <= i && i <= nb && nsent(ch) == old(nsent(ch)) + i && !closed(ch)
+//@     invariant shape: len(model) == s.nbVars && fresh(model) && fresh(unbound)
+//@     invariant ub:    forall(j, 0, len(unbound), 0 <= unbound[j] && unbound[j] < len(s.lastModel) && s.lastModel[unbound[j]] == 0)
+//@     invariant inc:   forall(p, 0, len(unbound), forall(q, p+1, len(unbound), unbound[p] < unbound[q]))
+//@     invariant bound: forall(v, 0, len(s.lastModel), s.lastModel[v] != 0 ==> model[v] == (s.lastModel[v] > 0))
+//@   loop 3
+//@     invariant idx:   0 <= rangei && rangei <= len(unbound)
+//@     invariant shape: len(model) == s.nbVars && fresh(model)
+//@     invariant bits:  forall(j, 0, rangei, model[unbound[j]] == bit(i, j))
+//@     invariant bound: forall(v, 0, len(s.lastModel), s.lastModel[v] != 0 ==> model[v] == (s.lastModel[v] > 0))
+
+//@ define trailWF(s *Solver) bool = forall(k, 0, len(s.trail), 0 <= s.trail[k] && s.trail[k] / 2 < s.nbVars)
+//@ define lastMax(s *Solver) bool = len(s.trail) > 0 ==> absi(s.model[s.trail[len(s.trail)-1] / 2]) >= 1 && forall(v, 0, s.nbVars, absi(s.model[v]) <= absi(s.model[s.trail[len(s.trail)-1] / 2]))
+
+// decisionLits: one literal per decision level above 1 (the negation of that level's decision),
+// nothing when there is no decision; never panics, in particular not on an empty trail.
+//@ func (*Solver).decisionLits
+//@   requires wf: s != nil && WFlen(s) && s.nbVars <= 1073741824 && trailWF(s) && lastMax(s)
+//@   requires emptyTrail: len(s.trail) == 0 ==> forall(v, 0, s.nbVars, absi(s.model[v]) <= 1)
+//@   requires oneDec: forall(v, 0, s.nbVars, forall(w, 0, s.nbVars, s.reason[v] == nil && s.reason[w] == nil && absi(s.model[v]) > 1 && absi(s.model[v]) == absi(s.model[w]) ==> v == w))
+//@   ensures  none: len(s.trail) == 0 ==> len(result) == 0
+//@   ensures  len:  len(s.trail) > 0 ==> len(result) == absi(s.model[s.trail[len(s.trail)-1] / 2]) - 1
+//@   ensures  dec:  forall(v, 0, s.nbVars, s.reason[v] == nil && absi(s.model[v]) > 1 ==> result[absi(s.model[v]) - 2] == ite(s.model[v] < 0, 2*v, 2*v+1))
+//@   loop 1
+//@     invariant idx: 0 <= rangei && rangei <= len(s.reason) && len(lits) == lvls - 1 && fresh(lits) && lvls == absi(s.model[s.trail[len(s.trail)-1] / 2])
+//@     invariant dec: forall(v, 0, rangei, s.reason[v] == nil && absi(s.model[v]) > 1 ==> lits[absi(s.model[v]) - 2] == ite(s.model[v] < 0, 2*v, 2*v+1))
